@@ -463,6 +463,14 @@ def make_history(rng, services, max_sessions, per_session):
             if sid == 0x27 and sfs:
                 for sf in [x for x in sfs if x % 2 == 1][:2]:
                     reqs += [f"27{sf:02x}", f"unlock:{sf + 1:02x}", f"27{sf:02x}", f"27{sf + 1:02x}" + rb(4), f"27{sf + 1:02x}" + rb(3)]
+            if sid == 0x27 and sfs:
+                # a seed request left pending, then requests whose answers must not depend on the (fresh, random) pending seed
+                for sf in [x for x in sfs if x % 2 == 1][:2]:
+                    follow = ["1902ff", "1902" + rb(1), "22" + rb(2), "22f186", "3101" + rb(2), "2e" + rb(2) + rb(2), "14ffffff", "1901ff", "190a",
+                              "2f" + rb(2) + "03" + rb(1), "1103"]
+                    for f in rng.sample(follow, 5):
+                        reqs.append(f"seq:27{sf:02x}|{f}")
+                    reqs.append(f"seq:27{sf:02x}|3e00|1902ff|3e00|22" + rb(2))
             if sid == 0x31:
                 rid = rb(2)
                 reqs += [f"3101{rid}", f"3102{rid}", f"3103{rid}", "3101" + rb(2) + rb(2), "3101" + rb(2)]
@@ -824,7 +832,7 @@ def check_c2(ctx, impl, c1_cases, c1_results, cli_cases=()):
                 continue
             i = next(k for k, (x, y) in enumerate(zip(a["answers"], b["answers"])) if x != y)
             req = cfg["history"][i]
-            sid = req[:2] if not req.startswith("unlock:") else "27"
+            sid = "27" if req.startswith("unlock:") else ("27+" + req.split("|")[-1][:2] if req.startswith("seq:") else req[:2])
             ctx.disagree("c2:answer-differs:sid=" + sid, f"same seed, arguments and history: answer to request {i} ({req}) differs between processes",
                          {"kind": "c2", "env": envd, "configs": [{**cfg, "history": cfg["history"][: i + 1]}]},
                          impl=b["answers"][i], model=a["answers"][i], spec_violated=True, site="RandomUDSServer.respond")
